@@ -41,6 +41,11 @@ type Case struct {
 	// VarDefs is the one executed (operationName), AltFirst says which comes first in the document
 	AltVarDefs string `json:"alt_var_defs,omitempty"`
 	AltFirst   bool   `json:"alt_first,omitempty"`
+	// nested fragments: the field sits in fragment N<Nest>, reached from the operation only through
+	// N1 → … → N<Nest> (and, with NestTwoPaths, also through M1 → N<Nest>); the operation itself uses
+	// every variable legitimately in `u(p_<name>: $<name>)`, an argument of exactly the variable's type
+	Nest         int  `json:"nest,omitempty"`
+	NestTwoPaths bool `json:"nest_two_paths,omitempty"`
 	// derived from the above, written for the reader of a replay file
 	Query     string `json:"query,omitempty"`
 	Variables string `json:"variables,omitempty"`
@@ -70,13 +75,15 @@ type pcase struct {
 	varDefs  []varDef
 	altDefs  []varDef // multi-operation documents
 	multi    bool
+	nest     int
+	twoPaths bool
 	altFirst bool
 	args     []named
 	raw      []named
 }
 
 func (c *Case) parse() (*pcase, error) {
-	p := &pcase{site: c.Site}
+	p := &pcase{site: c.Site, nest: c.Nest, twoPaths: c.NestTwoPaths}
 	envText := c.Env
 	if envText == "" {
 		envText = "()"
@@ -237,6 +244,28 @@ func (p *pcase) queryText() string {
 		}
 		return a + " " + b + " fragment F on Query { " + sel + " }"
 	}
+	if p.nest > 0 {
+		uses := []string{}
+		for _, v := range p.varDefs {
+			uses = append(uses, "p_"+v.Name+": $"+v.Name)
+		}
+		u := "u"
+		if len(uses) > 0 {
+			u += "(" + strings.Join(uses, ", ") + ")"
+		}
+		spreads := "...N1"
+		if p.twoPaths {
+			spreads += " ...M1"
+		}
+		doc := "query Q" + varDefsText(p.varDefs) + " { " + spreads + " " + u + " }"
+		for i := 1; i < p.nest; i++ {
+			doc += fmt.Sprintf(" fragment N%d on Query { ...N%d }", i, i+1)
+		}
+		if p.twoPaths {
+			doc += fmt.Sprintf(" fragment M1 on Query { ...N%d }", p.nest)
+		}
+		return doc + fmt.Sprintf(" fragment N%d on Query { %s }", p.nest, sel)
+	}
 	return "query Q" + varDefsText(p.varDefs) + " { " + sel + " }"
 }
 
@@ -376,6 +405,10 @@ func (r *registry) gql(t *Ty) graphql.Type {
 				e.Values[v] = &graphql.EnumValueDefinition{}
 				continue
 			}
+			if t.Name == "Unit" {
+				e.Values[v] = &graphql.EnumValueDefinition{Value: unitGo[v]}
+				continue
+			}
 			e.Values[v] = &graphql.EnumValueDefinition{Value: enumVal{v}}
 		}
 		r.enums[t.Name] = e
@@ -459,6 +492,16 @@ func newWorld(p *pcase, clone bool) (*world, error) {
 			return true
 		},
 	}
+	queryFields := map[string]*graphql.FieldDefinition{"f": f, "g": g}
+	if p.nest > 0 {
+		// the legitimate use of every variable: an argument of exactly the variable's declared type
+		u := &graphql.FieldDefinition{Type: graphql.StringType, Arguments: map[string]*graphql.InputValueDefinition{},
+			Resolve: func(graphql.FieldContext) (interface{}, error) { return "u", nil }}
+		for _, v := range p.varDefs {
+			u.Arguments["p_"+v.Name] = &graphql.InputValueDefinition{Type: r.gql(v.Ty)}
+		}
+		queryFields["u"] = u
+	}
 	if p.site == "field" {
 		f.Arguments = argMap()
 	} else if p.site == "directive" {
@@ -503,7 +546,7 @@ func newWorld(p *pcase, clone bool) (*world, error) {
 		collect(v.Ty)
 	}
 	def := &graphql.SchemaDefinition{
-		Query: &graphql.ObjectType{Name: "Query", Fields: map[string]*graphql.FieldDefinition{"f": f, "g": g}},
+		Query: &graphql.ObjectType{Name: "Query", Fields: queryFields},
 		Directives: map[string]*graphql.DirectiveDefinition{
 			"probe":   probe,
 			"skip":    wrap("skip", graphql.SkipDirective),
@@ -689,7 +732,9 @@ func runUngated(p *pcase, w *world, query string, vars map[string]interface{}) (
 				op = d
 			}
 		case *ast.FragmentDefinition:
-			field = d.SelectionSet.Selections[0].(*ast.Field)
+			if fd, ok := d.SelectionSet.Selections[0].(*ast.Field); ok {
+				field = fd
+			}
 		}
 	}
 	if field == nil {
